@@ -18,6 +18,7 @@ pub(crate) mod prng;
 pub(crate) mod world;
 
 mod c01;
+mod c02;
 mod c03;
 mod c05;
 mod c06;
@@ -73,6 +74,7 @@ pub(crate) fn last_panic() -> String {
 fn run_op(op: &str, seed: u64, n: u64, out: &mut out::Out) {
     match op {
         "c01" => c01::run(seed, n, out),
+        "c02" => c02::run(seed, n, out),
         "c03" => c03::run(seed, n, out),
         "c05" => c05::run(seed, n, out),
         "c06" => c06::run(seed, n, out),
